@@ -8,6 +8,7 @@ import (
 	"os"
 	"reflect"
 	"sort"
+	"strings"
 
 	"github.com/blinklabs-io/gouroboros/ledger"
 	"github.com/blinklabs-io/gouroboros/ledger/common"
@@ -116,14 +117,40 @@ func treeComponents(root *vh.Item, typ uint) *comps {
 			c.scriptTy = append(c.scriptTy, nil)
 			c.redeemers = append(c.redeemers, nil)
 		}
-	case blk.IsShelleyLike(root):
-		c.bodiesArr = root.Xs[1]
-		for i, body := range root.Xs[1].Xs {
-			c.bodies = append(c.bodies, body)
-			var w *vh.Item
-			if i < len(root.Xs[2].Xs) {
-				w = root.Xs[2].Xs[i]
+	case typ == 8 || blk.IsShelleyLike(root):
+		var bodyItems, witItems, auxItems []*vh.Item
+		if typ == 8 { // [header, [invalid/nil, [[body, witness_set, aux/nil] ...], leios/nil, peras/nil]]
+			if root.K != vh.KArr || len(root.Xs) != 2 || root.Xs[1].K != vh.KArr || len(root.Xs[1].Xs) != 4 || root.Xs[1].Xs[1].K != vh.KArr {
+				return c
 			}
+			c.bodiesArr = root.Xs[1].Xs[1]
+			for _, tx := range c.bodiesArr.Xs {
+				if tx.K != vh.KArr || len(tx.Xs) != 3 {
+					return &comps{}
+				}
+				bodyItems = append(bodyItems, tx.Xs[0])
+				witItems = append(witItems, tx.Xs[1])
+				var a *vh.Item
+				if !(tx.Xs[2].K == vh.KSimple && tx.Xs[2].F == vh.Fimm && tx.Xs[2].N == 22) {
+					a = tx.Xs[2]
+				}
+				auxItems = append(auxItems, a)
+			}
+		} else {
+			c.bodiesArr = root.Xs[1]
+			for i, body := range root.Xs[1].Xs {
+				bodyItems = append(bodyItems, body)
+				var w *vh.Item
+				if i < len(root.Xs[2].Xs) {
+					w = root.Xs[2].Xs[i]
+				}
+				witItems = append(witItems, w)
+				auxItems = append(auxItems, blk.MapGet(root.Xs[3], uint64(i), true))
+			}
+		}
+		for i, body := range bodyItems {
+			c.bodies = append(c.bodies, body)
+			w := witItems[i]
 			c.wits = append(c.wits, w)
 			var outs []*vh.Item
 			arr := blk.MapGet(body, 1, false)
@@ -132,7 +159,7 @@ func treeComponents(root *vh.Item, typ uint) *comps {
 			}
 			c.outs = append(c.outs, outs)
 			c.outsArr = append(c.outsArr, arr)
-			c.meta = append(c.meta, blk.MapGet(root.Xs[3], uint64(i), true))
+			c.meta = append(c.meta, auxItems[i])
 			var ds, ss []*vh.Item
 			var st []byte
 			rd := map[common.RedeemerKey]*vh.Item{}
@@ -248,11 +275,11 @@ func (r *runner) checkOffsets(name string, typ uint, data []byte, root *vh.Item,
 	if offs == nil {
 		return
 	}
-	if typ == 8 || typ == 0 {
-		// Dijkstra: DecodeWithOffsets has no Dijkstra layout and the only fixture has no
-		// transactions; EBB: no transactions.  Nothing reported, nothing to be wrong.
+	if typ == 0 || (typ == 8 && name == "streaming") {
+		// a Byron epoch boundary block has no transactions; DecodeWithOffsets has no Dijkstra
+		// layout (a 2-element block yields no locations).  Nothing may be reported.
 		if len(offs.Transactions) != 0 {
-			viol(name+":phantom-transactions", "locations reported for a block without transactions")
+			viol(name+":phantom-transactions", fmt.Sprintf("%d locations reported for a block the walker has no transactions for", len(offs.Transactions)))
 		}
 		return
 	}
@@ -419,12 +446,58 @@ func (r *runner) runBlock(label string, typ uint, root *vh.Item, toCoq bool) boo
 			}
 		}
 	}
-	if toCoq && blk.IsShelleyLike(root) && r.coqBytes+2*len(data) <= r.coqBudget {
+	if toCoq && (blk.IsShelleyLike(root) || typ <= 1 || typ == 8) && r.coqBytes+2*len(data) <= r.coqBudget {
 		r.coqBytes += 2 * len(data)
 		r.cf.Add(fmt.Sprintf("(true, %s, %s)", vh.Bytes(data), coqObserved(bo.Offsets, nil)), rc)
 		r.cf.Add(fmt.Sprintf("(false, %s, %s)", vh.Bytes(data), coqObserved(offs2, err2)), rc)
 	}
 	return true
+}
+
+func (r *runner) dijkstraCorpus(fx []blk.Fixture) {
+	var dj, cw *blk.Fixture
+	for i := range fx {
+		if fx[i].Type == 8 {
+			dj = &fx[i]
+		}
+		if fx[i].Type == 7 {
+			cw = &fx[i]
+		}
+	}
+	if dj == nil || cw == nil || len(dj.Root.Xs) != 2 || len(dj.Root.Xs[1].Xs) != 4 {
+		return
+	}
+	var pool []*vh.Item
+	if b, err := os.ReadFile(blk.Repo() + "/ledger/dijkstra/testdata/cardano_ledger_dijkstra_w30_tx.hex"); err == nil {
+		if it, n, err := vh.ParseItem(vh.UnHex(strings.TrimSpace(string(b)))); err == nil && n > 0 && it.K == vh.KArr && len(it.Xs) == 3 {
+			pool = append(pool, it)
+		}
+	}
+	for i := range cw.Root.Xs[1].Xs {
+		aux := blk.MapGet(cw.Root.Xs[3], uint64(i), true)
+		if aux == nil {
+			aux = vh.Null()
+		}
+		pool = append(pool, vh.A(cw.Root.Xs[1].Xs[i].Clone(), cw.Root.Xs[2].Xs[i].Clone(), aux.Clone()))
+	}
+	for k := 0; k < r.c.Pick(40, 400); k++ {
+		b := dj.Root.Clone()
+		n := 1 + r.c.Rng.Intn(3)
+		if k%10 == 9 {
+			n = blk.BoundaryCounts[r.c.Rng.Intn(4)]
+		}
+		var txs []*vh.Item
+		for j := 0; j < n; j++ {
+			txs = append(txs, pool[r.c.Rng.Intn(len(pool))].Clone())
+		}
+		arr := &vh.Item{K: vh.KArr, F: vh.MinForm(uint64(n)), Xs: txs}
+		b.Xs[1].Xs[1] = arr
+		blk.SetForm(arr, r.c.Rng.Intn(blk.NForms))
+		if k%4 != 0 {
+			b = vh.Reform(r.c.Rng, b, reformOpts[r.c.Rng.Intn(len(reformOpts))])
+		}
+		r.runBlock(fmt.Sprintf("dijkstra:txs%d:%d", n, k), 8, b, len(b.Enc()) < 5000)
+	}
 }
 
 // boundaryCorpus: deterministic (every seed runs all of it in Go); the seed picks which of the
@@ -446,7 +519,7 @@ func (r *runner) boundaryCorpus(fx []blk.Fixture) {
 					for _, o := range outs {
 						blk.SetForm(o, (mode+n)%blk.NForms)
 					}
-					r.runBlock(fmt.Sprintf("byron:boundary:txs:%d:%s", n, blk.FormNames[mode]), f.Type, b, false)
+					r.runBlock(fmt.Sprintf("byron:boundary:txs:%d:%s", n, blk.FormNames[mode]), f.Type, b, n <= 24 && r.c.Rng.Intn(5) == 0)
 				}
 			}
 			continue
@@ -486,7 +559,7 @@ func run(c *vh.Ctx) error {
 	c.Res.Rule = "real era blocks (Byron..Conway, Dijkstra fixture) and small blocks cut from them (1-3 transactions with their witness sets and auxiliary data), each re-encoded by vh.ParseItem -> vh.Reform under seeded header-form choices (wider length arguments, indefinite arrays/maps, wider ints/strings/tags); only encodings the era decoder accepts count (SkipBodyHashValidation, since re-encoding changes the body hash); distinct by block bytes; non-trivial = at least one non-minimal or indefinite container header"
 	c.Res.Modelled = []string{
 		"fxamacker Decode/Skip/DecodeRaw = Lib.CborParse.parse_full on the remaining input (validated by C03's parser correspondence); tag-wrapped or null containers are outside the model",
-		"Byron and Dijkstra layouts are monitored against the independent span oracle but not modelled in Coq",
+		"Byron main blocks, epoch boundary blocks and (non-streaming) Dijkstra blocks are modelled and in the correspondence; exactness theorems: see notes",
 		"uint32 offset arithmetic is modelled in nat; no wrap below 4 GiB by C07_in_range",
 	}
 	r := &runner{c: c, coqBudget: c.Pick(80_000, 1_000_000)}
@@ -514,14 +587,23 @@ func run(c *vh.Ctx) error {
 	fx := blk.LoadFixtures()
 	// regression corpus: each fixture as is, with the outer header 0x98 n, and 0x9f .. 0xff
 	for _, f := range fx {
-		r.runBlock(f.Name+":as-is", f.Type, f.Root, f.Type == 2)
+		r.runBlock(f.Name+":as-is", f.Type, f.Root, f.Type == 2 || f.Type == 1 || f.Type == 8)
 		w := f.Root.Clone()
 		w.F = vh.F1
-		r.runBlock(f.Name+":outer-98", f.Type, w, f.Type == 7)
+		r.runBlock(f.Name+":outer-98", f.Type, w, f.Type == 7 || f.Type == 1)
 		w = f.Root.Clone()
 		w.F = vh.Findef
 		r.runBlock(f.Name+":outer-9f", f.Type, w, false)
 	}
+	// Byron epoch boundary blocks (accepted, no transactions): nothing may be reported, no error
+	for _, nm := range [][2]int{{0, 1}, {1, 1}, {2, 1}, {0, 0}, {4, 1}, {2, 2}, {24, 24}} {
+		e := blk.SyntheticEBB(nm[0], nm[1])
+		r.runBlock(fmt.Sprintf("ebb:ids%d:extra%d", nm[0], nm[1]), 0, e, nm[0] < 5)
+		r.runBlock(fmt.Sprintf("ebb:ids%d:extra%d:reform", nm[0], nm[1]), 0, vh.Reform(c.Rng, e, reformOpts[0]), false)
+	}
+	// Dijkstra blocks with transactions (the fixture has none): [body, witness_set, aux/nil] from the
+	// Dijkstra transaction fixture and from Conway transactions
+	r.dijkstraCorpus(fx)
 	// containers whose child count crosses the header-width boundaries (23/24, 255/256) in
 	// minimal / widened / 8-byte / indefinite form, at every level the walkers handle
 	r.boundaryCorpus(fx)
